@@ -119,6 +119,7 @@ func cmdFn(args []string) {
 	verbose := fs.Bool("v", false, "print every obligation")
 	nocache := fs.Bool("nocache", false, "do not use the answer cache")
 	showGoal := fs.Bool("goal", false, "print the (abbreviated) failing goal")
+	canary := fs.Bool("canary", false, "vacuity probe: satisfiability of return-path conditions (anything but unsat is fine)")
 	fs.Parse(args)
 	t0 := time.Now()
 	p, err := vc.Load(*repo, strings.Split(*pkgs, ","), filepath.Join(*verif, "trusted"))
@@ -175,7 +176,14 @@ func cmdFn(args []string) {
 		} else if ok != n {
 			status = "FAILED"
 		}
-		fmt.Printf("== %s: %d/%d obligations discharged, %d paths (%d returning) -- %s\n", r.Func, ok, n, r.Paths, r.RetPaths, status)
+		cov := ""
+		if *canary && r.Fail == "" && len(r.CoverPC) > 1 {
+			cov = " canary:"
+			for _, pc := range r.CoverPC[1:] {
+				cov += " " + s.Probe(r.CoverQuery(pc), 2).Result
+			}
+		}
+		fmt.Printf("== %s: %d/%d obligations discharged, %d paths (%d returning) -- %s%s\n", r.Func, ok, n, r.Paths, r.RetPaths, status, cov)
 		for _, w := range r.Warnings {
 			fmt.Println("   warning:", w)
 		}
